@@ -25,6 +25,17 @@ def run(ctx):
     ctx.rule('C17.LIMIT', lambda: rule_limit(ctx), 6)
     ctx.rule('C17.UNSUB', lambda: rule_unsub(ctx), 3)
     ctx.rule('C17.STATUSSRC', lambda: rule_statussrc(ctx), 1)
+    # 'consistently, also from cache and for subscriptions': the cache discipline and the subscribe snapshot (C10, C07)
+    from . import c10 as _c10, c07 as _c07
+    from .fresh import Fresh, rule_epoch_bumped, rule_fill
+    got = ctx.rule('C17.INVALIDATE', lambda: _c10.rule_invalidate(ctx, 'C17.INVALIDATE'))
+    if isinstance(got, tuple):
+        _n, f_, cfg_, _ln, spawns_ = got
+        ctx.rule('C17.EPOCH', lambda: rule_epoch_bumped(ctx, f_, 'self._touched_count', 'C17.EPOCH',
+                                                        must_precede=[cfg_.node(q.stmt(s_)) for s_ in spawns_] + [cfg_.exit]), 1)
+    fr = Fresh(ctx, _c10.EPOCHS)
+    ctx.rule('C17.FILL', lambda: rule_fill(ctx, fr, ctx.func('sess', 'SessionManager.limited_history'), 'self._history_cache', 'C17.FILL'), 1)
+    ctx.rule('C17.SUBSCRIBE', lambda: _c07.rule_subscribe(ctx) + _c07.rule_status(ctx), 5)
 
 
 def rule_clip(ctx):
